@@ -163,12 +163,34 @@ def _dsl_names():
     return dict(declare=declare)
 
 
-def bind_math(func, extra=None):
+def poisoned_declare(fill):
+    """compyle's declare with every declared matrix filled with `fill`
+    instead of zeros.  The generated C leaves declared locals uninitialised
+    (`cdef double mat[9]`), so a result that changes with the fill value
+    depends on memory no statement has written."""
+    from compyle.api import declare
+
+    def _fill(v):
+        if isinstance(v, np.ndarray):
+            v.fill(fill)
+        return v
+
+    def declare_filled(type, num=1):
+        r = declare(type, num)
+        if isinstance(r, tuple):
+            return tuple(_fill(v) for v in r)
+        return _fill(r)
+    return declare_filled
+
+
+def bind_math(func, extra=None, override=None):
     """The same function with the math.h names it uses but does not import
-    (and the given helper functions) added to its globals."""
+    (and the given helper functions) added to its globals; `override`
+    replaces names the module defines itself."""
     g = func.__globals__
     code = func.__code__
     add = dict(extra or {})
+    add.update(override or {})
     dsl = None
     for n in code.co_names:
         if n not in g and not hasattr(builtins, n):
@@ -226,7 +248,7 @@ class _Pair(object):
 
 class RefExec(object):
     def __init__(self, particle_arrays, groups, kernel, nnps, eq_ids=None,
-                 group_ids=None, checked=True):
+                 group_ids=None, checked=True, matrix_fill=None):
         from pysph.sph.equation import Group
         self.pas = list(particle_arrays)
         self.index = dict((pa.name, i) for i, pa in enumerate(self.pas))
@@ -237,6 +259,9 @@ class RefExec(object):
         self.kernel = kernel
         self.nnps = nnps
         self.checked = checked
+        self.override = {}
+        if matrix_fill is not None:
+            self.override['declare'] = poisoned_declare(matrix_fill)
         self.eq_ids = eq_ids or {}
         self.group_ids = group_ids or {}
         self.log = []
@@ -320,9 +345,10 @@ class RefExec(object):
                 for h in hs:
                     helpers[h.__name__] = h
                 for h in hs:                         # helpers may call helpers
-                    helpers[h.__name__] = bind_math(h, dict(helpers))
+                    helpers[h.__name__] = bind_math(h, dict(helpers),
+                                                    self.override)
             args = [a for a in getfullargspec(f).args if a != 'self']
-            m = (bind_math(f, helpers), args)
+            m = (bind_math(f, helpers, self.override), args)
             self._meth[key] = m
         return m
 
